@@ -177,6 +177,7 @@ ENV_GUARANTEES = lambda S, T: (impose_error_write_once(S, T), impose_outputs_sta
 def _run_tasks(c):
     arr, n = c.arg('btt_list').arr, c.arg('btt_list').n
     i = Int('i!rt')
+    if not c.verifying: ENV_GUARANTEES(c.S, c.T)          # (before any clause reads the post-state)
     c.requires('list_not_empty', n > 0)
     c.requires('entries_are_block_task_timeout', ForAll([i], Implies(And(0 <= i, i < n), wf_entry(arr[i]))))
     c.requires('inside_the_simulation_task', in_simtask(c.S))
@@ -196,9 +197,7 @@ def _run_tasks(c):
              ensures=lambda post, exc: [Not(post.f('cancel_requested', TASK)), Not(post.f('task_done', TASK)),
                                         # no task is left behind: each one is finished or its cancellation has been requested
                                         all_done(post, also_requested=True)])
-    if not c.verifying:
-        ENV_GUARANTEES(c.S, c.T)
-        return
+    if not c.verifying: return
     # every wait is bounded by the entry's own timeout, counted from the start of _run_tasks
     def expected(k, r, st):
         t0 = st.ghost['t_start']
@@ -300,3 +299,204 @@ def verify_run_tasks(run):
                calls={'sorted': sorted_call, 'get_time': clock_call, 'task.done': task_pred('task_done'), 'task.cancelled': task_pred('task_cancelled'),
                       'task.exception': task_exception_call},
                hooks={'await': awaits({'asyncio.wait_for(task, timeout - get_time() + start_time)': await_wait_for})})
+
+
+# ---- Circuit._stop_sblocks ---------------------------------------------------------------------------------------------------------
+declare_fields(stop_timeout=REAL, init_timeout=REAL)
+
+
+def has_async_cleanup(S, blocks, me):
+    return lambda b: And(blocks[b], S.whole('circuit')[b] == me, calls.inst_of(b, AA()), has_method(b, StringVal('stop_async')),
+                         S.whole('stop_timeout')[b] > 0)
+
+
+def lifecycle_call(name, effects=True):
+    """blk.stop() / blk.start(): block code behind an interface contract: it may deliver events and fail with an Exception"""
+    def h(ex, e, st):
+        blk = as_kind(st.env['blk'], Ref(), st)
+        outs = []
+        for fail in (False, True):
+            s0 = st.copy(); ex.emit(s0, rec(name, Val.Obj(blk)))
+            s2 = env_step(ex, s0, sync=True)
+            if fail:
+                s2.label(f'{name}:raises')
+                outs.append((s2, Raise(PExc('OtherException', val=Val.Obj(fresh('exc', IntSort())), where='callee'))))
+            else:
+                outs.append((s2, P_NONE))
+        return outs
+    return h
+
+
+@contract('Circuit._stop_sblocks', qual=Q + '_stop_sblocks', params={'blocks': REFSET}, modifies=LIFE_EFFECTS, self_cls='Circuit',
+          traced=lambda a, st: rec('_stop_sblocks', to_val(a['self'], st)))
+def _stop_sblocks(c):
+    me, blocks = c.z('self'), c.z('blocks')
+    b = Int('b!st')
+    c.requires('inside_the_simulation_task', in_simtask(c.S, me))
+    c.requires('an_error_is_recorded_and_no_cancellation_is_pending', And(c.pre('_error', me) != Val.VNone, Not(c.pre('cancel_requested', TASK))))
+    if not c.verifying:
+        ENV_GUARANTEES(c.S, c.T)
+        c.ensures('simulation_task_state', And(c.post('_error', CIRC) == c.pre('_error', CIRC), Not(c.post('cancel_requested', TASK)),
+                                               Not(c.post('task_done', TASK)), c.post('_simtask', CIRC) == c.pre('_simtask', CIRC)))
+        return
+    is_async = has_async_cleanup(c.S, blocks, me)
+    w = Int('some_async_block')              # names a block with asynchronous clean-up, if there is one
+    c.requires('witness', ForAll([b], Implies(is_async(b), is_async(w))))
+    c.ensures('simulation_task_state', And(c.post('_error', CIRC) == c.pre('_error', CIRC), Not(c.post('cancel_requested', TASK)),
+                                           Not(c.post('task_done', TASK)), c.post('_simtask', CIRC) == c.pre('_simtask', CIRC)))
+    # the order automaton: ghost sets `stopped`, `tasked` and the phase (0: async blocks are being stopped, 1: their tasks are created,
+    # 2: the clean-up was awaited, the remaining blocks are being stopped)
+    def expected(k, r, st):
+        g = st.ghost
+        fn = z3.simplify(Rec.fn(r)).as_string()
+        x = Val.ref(Rec.recv(r))
+        if fn == 'stop':
+            goals = [('stop_only_for_the_given_blocks', blocks[x]),
+                     ('stop_at_most_once_per_block', Not(g['stopped'][x])),
+                     ('blocks_with_async_cleanup_are_stopped_first', If(is_async(x), g['phase'] == 0, And(g['phase'] != 1, Implies(g['phase'] == 0, Not(is_async(w))))))]
+            g['stopped'] = Store(g['stopped'], x, BoolVal(True))
+            return goals
+        if fn == 'create_task':
+            co = Rec.a0(r); bb = coro_recv(co)
+            goals = [('cleanup_task_only_for_a_stopped_block_with_async_cleanup',
+                      And(coro_name(co) == StringVal('stop_async'), is_async(bb), g['stopped'][bb], Not(g['tasked'][bb]), g['phase'] <= 1))]
+            g['tasked'] = Store(g['tasked'], bb, BoolVal(True)); g['phase'] = IntVal(1)
+            return goals
+        if fn == '_run_tasks':
+            lst = Val.tk(Rec.a1(r)); i = Int('i!rt2')
+            ent = lambda k: T3(tup_item(lst, k))
+            goals = [('async_cleanup_is_awaited_for_every_such_block', And(ForAll([b], Implies(is_async(b), And(g['stopped'][b], g['tasked'][b]))), g['phase'] <= 1,
+                                                                       Rec.a0(r) == Val.S(StringVal('stop')))),
+                     ('each_cleanup_is_bounded_by_the_stop_timeout_of_its_block',
+                      ForAll([i], Implies(And(0 <= i, i < tup_len(lst)),
+                                          And(is_async(ent(i)[0]), task_coro(ent(i)[1]) == coro_of(StringVal('stop_async'), ent(i)[0]),
+                                              ent(i)[2] == Val.R(c.pre('stop_timeout', ent(i)[0]))))))]
+            g['phase'] = IntVal(2)
+            return goals
+        return [('no_other_call', BoolVal(False))]
+    c.expect_trace(expected, None, normal_len=None, predicate=True)
+    c.ensures('every_given_block_was_stopped', ForAll([b], c.T.g('stopped')[b] == blocks[b]))
+    c.ensures('async_cleanup_was_awaited', Implies(is_async(w), c.T.g('phase') == 2))
+    c.raises('CancelledError', when=BoolVal(False), unchanged=False, label='clean-up_is_not_interrupted')
+
+
+def inv_stop_async(lc):
+    g = lc.st.st.ghost; b = Int('b!ia')
+    return [('stopped_are_the_visited', ForAll([b], g['stopped'][b] == lc.done[b])),
+            ('phase', g['phase'] == 0),
+            ('nothing_tasked', ForAll([b], Not(g['tasked'][b])))] + _sim_state(lc)
+
+
+def _sim_state(lc):
+    st = lc.st
+    return [('simulation_task_state', And(st.f('_error', CIRC) == lc.pre.f('_error', CIRC), Not(st.f('cancel_requested', TASK)),
+                                          Not(st.f('task_done', TASK)), st.f('_simtask', CIRC) == lc.pre.f('_simtask', CIRC))),
+            ('membership_unchanged', And(st.whole('circuit') == lc.pre.whole('circuit'), st.whole('stop_timeout') == lc.pre.whole('stop_timeout')))]
+
+
+def inv_stop_tasks(lc):
+    """the comprehension creating the clean-up tasks"""
+    g = lc.st.st.ghost; b, i = Int('b!it'), Int('i!it')
+    res = lc.local('_comp_result')
+    S = lc.S
+    return [('tasked_are_the_visited', ForAll([b], g['tasked'][b] == lc.done[b])),
+            ('stopped_unchanged', ForAll([b], g['stopped'][b] == S[b])),
+            ('phase', Or(g['phase'] == 1, And(g['phase'] == 0, ForAll([b], Not(lc.done[b]))))),
+            ('entries', ForAll([i], Implies(And(0 <= i, i < res.n), And(wf_entry(res.arr[i]), T3(res.arr[i])[1] != TASK, S[T3(res.arr[i])[0]],
+                                                                         task_coro(T3(res.arr[i])[1]) == coro_of(StringVal('stop_async'), T3(res.arr[i])[0]),
+                                                                         T3(res.arr[i])[2] == Val.R(lc.pre.f('stop_timeout', T3(res.arr[i])[0])))))),
+            ('count', And(res.n >= 0, (res.n > 0) == Exists([b], lc.done[b])))] + _sim_state(lc)
+
+
+def inv_stop_sync(lc):
+    g = lc.st.st.ghost; b = Int('b!is')
+    e = lc.entry.st.ghost
+    return [('stopped_are_the_earlier_ones_and_the_visited', ForAll([b], g['stopped'][b] == Or(e['stopped'][b], lc.done[b]))),
+            ('phase_unchanged', g['phase'] == e['phase']),
+            ('tasked_unchanged', ForAll([b], g['tasked'][b] == e['tasked'][b]))] + _sim_state(lc)
+
+
+def verify_stop_sblocks(run):
+    none = K(IntSort(), BoolVal(False))
+    G = {'stopped': none, 'tasked': none, 'phase': IntVal(0), 'now': z3.Real('now0')}
+    run.verify('Circuit._stop_sblocks', cls='Circuit', ghost=G,
+               invariants={'for blk in async_blocks': inv_stop_async, 'comp:for blk in async_blocks': inv_stop_tasks, 'for blk in sync_blocks': inv_stop_sync},
+               calls={'self.getblocks': sblocks_of, 'blk.has_method': has_method_call, 'blk.stop': lifecycle_call('stop'),
+                      'blk.stop_async': coroutine_call('stop_async'), 'asyncio.create_task': create_task_call},
+               hooks={'await': awaits({'asyncio.sleep(0)': await_sleep0, '*': await_contracted})})
+
+
+# ---- Circuit._init_sblocks_async -----------------------------------------------------------------------------------------------------
+def wants_async_init(S, me):
+    return lambda b: And(S.whole('circuit')[b] == me, calls.inst_of(b, AA()), S.whole('_output')[b] == Val.Undef,
+                         has_method(b, StringVal('init_async')), S.whole('init_timeout')[b] > 0)
+
+
+@contract('Circuit._init_sblocks_async', qual=Q + '_init_sblocks_async', modifies=LIFE_EFFECTS, self_cls='Circuit',
+          traced=lambda a, st: rec('_init_sblocks_async', to_val(a['self'], st)))
+def _init_async(c):
+    me = c.z('self')
+    b = Int('b!ia')
+    if not c.verifying: ENV_GUARANTEES(c.S, c.T)
+    c.requires('inside_the_simulation_task', in_simtask(c.S, me))
+    sim_state = lambda post: And(post.f('_error', CIRC) == c.pre('_error', CIRC), Implies(post.f('cancel_requested', TASK), c.pre('cancel_requested', TASK)),
+                                 Not(post.f('task_done', TASK)), post.f('_simtask', CIRC) == c.pre('_simtask', CIRC))
+    c.ensures('simulation_task_state', sim_state(c.T))
+    c.raises('CancelledError', when=can_be_cancelled(c.S), unchanged=False, label='cancelled_while_waiting', impose=ENV_GUARANTEES,
+             ensures=lambda post, exc: [Not(post.f('cancel_requested', TASK)), Not(post.f('task_done', TASK))])
+    if not c.verifying: return
+    eligible = wants_async_init(c.S, me)
+    w = Int('some_eligible_block')
+    c.requires('witness', ForAll([b], Implies(eligible(b), eligible(w))))
+    def expected(k, r, st):
+        g = st.ghost
+        fn = z3.simplify(Rec.fn(r)).as_string()
+        if fn == 'create_task':
+            co = Rec.a0(r); bb = coro_recv(co)
+            goals = [('init_async_only_for_uninitialised_blocks_with_a_positive_timeout',
+                      And(coro_name(co) == StringVal('init_async'), eligible(bb), st.readz('_output', bb) == Val.Undef)),
+                     ('init_async_at_most_once_per_block', And(Not(g['tasked'][bb]), g['phase'] == 0))]
+            g['tasked'] = Store(g['tasked'], bb, BoolVal(True))
+            return goals
+        if fn == '_run_tasks':
+            lst = Val.tk(Rec.a1(r)); i = Int('i!rt3')
+            ent = lambda k: T3(tup_item(lst, k))
+            goals = [('the_async_routines_are_awaited_once', And(g['phase'] == 0, Rec.a0(r) == Val.S(StringVal('async init')),
+                                                                 ForAll([b], Implies(eligible(b), g['tasked'][b])))),
+                     ('each_routine_is_bounded_by_the_init_timeout_of_its_block',
+                      ForAll([i], Implies(And(0 <= i, i < tup_len(lst)),
+                                          And(eligible(ent(i)[0]), task_coro(ent(i)[1]) == coro_of(StringVal('init_async'), ent(i)[0]),
+                                              ent(i)[2] == Val.R(c.pre('init_timeout', ent(i)[0]))))))]
+            g['phase'] = IntVal(1)
+            return goals
+        return [('no_other_call', BoolVal(False))]
+    c.expect_trace(expected, None, normal_len=None, predicate=True)
+    c.ensures('async_initialisation_was_awaited_if_needed', Implies(eligible(w), c.T.g('phase') == 1))
+
+
+def inv_init_tasks(lc):
+    g = lc.st.st.ghost; b, i = Int('b!ii'), Int('i!ii')
+    res = lc.local('_comp_result')
+    me = as_kind(lc.pre.args['self'], Ref())
+    eligible = wants_async_init(lc.pre, me)
+    st = lc.st
+    return [('tasked_are_the_visited_eligible_blocks', ForAll([b], g['tasked'][b] == And(lc.done[b], eligible(b)))),
+            ('phase', g['phase'] == 0),
+            ('nothing_else_changed', And(st.whole('_output') == lc.pre.whole('_output'), st.whole('circuit') == lc.pre.whole('circuit'),
+                                         st.whole('init_timeout') == lc.pre.whole('init_timeout'), st.whole('_error') == lc.pre.whole('_error'),
+                                         st.whole('cancel_requested') == lc.pre.whole('cancel_requested'), st.whole('task_done') == lc.pre.whole('task_done'),
+                                         st.whole('_simtask') == lc.pre.whole('_simtask'))),
+            ('entries', ForAll([i], Implies(And(0 <= i, i < res.n), And(wf_entry(res.arr[i]), T3(res.arr[i])[1] != TASK, eligible(T3(res.arr[i])[0]),
+                                                                         task_coro(T3(res.arr[i])[1]) == coro_of(StringVal('init_async'), T3(res.arr[i])[0]),
+                                                                         T3(res.arr[i])[2] == Val.R(lc.pre.f('init_timeout', T3(res.arr[i])[0])))))),
+            ('count', And(res.n >= 0, (res.n > 0) == Exists([b], And(lc.done[b], eligible(b)))))]
+
+
+def verify_init_async(run):
+    none = K(IntSort(), BoolVal(False))
+    G = {'tasked': none, 'phase': IntVal(0), 'now': z3.Real('now0')}
+    run.verify('Circuit._init_sblocks_async', cls='Circuit', ghost=G,
+               invariants={'comp:for blk in self.getblocks(addons.AddonAsync)': inv_init_tasks},
+               calls={'self.getblocks': sblocks_of, 'blk.has_method': has_method_call, 'blk.init_async': coroutine_call('init_async'),
+                      'asyncio.create_task': create_task_call},
+               hooks={'await': awaits({'*': await_contracted})})
